@@ -654,8 +654,9 @@ Args2(f, p, v, q, w) == IF q = "" THEN Args(f, p, v) ELSE [Contract(f).base EXCE
 Cases == {<<f, "", 0, "", 0>> : f \in DrivenFns}
          \cup UNION {{<<f, pv[1], pv[2], "", 0>> : pv \in Contract(f).sweep} : f \in DrivenFns}
 \* thorough tier: every value of one argument x every value of another one (valid and invalid)
-PairCases == UNION {{<<f, pv[1], pv[2], qw[1], qw[2]>> :
-                       pv \in Contract(f).sweep, qw \in {x \in Contract(f).sweep : x[1] # pv[1]}} : f \in DrivenFns}
+PairsOf(f) == UNION {{<<f, pv[1], pv[2], qw[1], qw[2]>> : qw \in {x \in Contract(f).sweep : x[1] # pv[1]}} :
+                       pv \in Contract(f).sweep}
+PairCases == UNION {PairsOf(f) : f \in DrivenFns}
 
 \* table consistency: the baseline of every driven function satisfies every clause
 BaselineValid == \A f \in DrivenFns : Violated(f, Contract(f).base) = {}
